@@ -179,7 +179,15 @@ func (in *Interp) reflectTypeMethod(rt RTypeV, name string, args []Value) Value 
 			return rtypeIface(u.Elem())
 		}
 		in.goPanicf("reflect: Elem of invalid type %s", typeString(rt.t))
-	case "String", "Name":
+	case "Name":
+		if n, ok := rt.t.(*types.Named); ok {
+			return constString(n.Obj().Name())
+		}
+		if b, ok := rt.t.(*types.Basic); ok {
+			return constString(b.Name())
+		}
+		return constString("")
+	case "String":
 		return StringV{opaque: "reflect.Type." + name + "(" + typeString(rt.t) + ")"}
 	case "NumField":
 		if st, ok := under(rt.t).(*types.Struct); ok {
@@ -250,6 +258,13 @@ func makeIntrinsics() map[string]intrinsic {
 	}
 	m["(reflect.Value).Elem"] = func(in *Interp, _ *frame, _ *ssa.CallCommon, a []Value) Value {
 		return in.rvElem(rv(a[0]))
+	}
+	m["(reflect.Value).Addr"] = func(in *Interp, _ *frame, _ *ssa.CallCommon, a []Value) Value {
+		r := rv(a[0])
+		if r.t == nil || r.c == nil {
+			in.goPanicf("reflect.Value.Addr of unaddressable value")
+		}
+		return RVal{t: types.NewPointer(r.t), v: Ptr{c: r.c}, ro: r.ro}
 	}
 	m["(reflect.Value).Kind"] = func(in *Interp, _ *frame, _ *ssa.CallCommon, a []Value) Value {
 		return U64(uint64(kindOf(rv(a[0]).t)))
